@@ -1,9 +1,11 @@
 import PrologVerif.Driver.Common
 import PrologVerif.Driver.C18
+import PrologVerif.Driver.C16
 open PrologVerif PrologVerif.Driver
 
 def handlers : List (String × Handler) :=
-  [ ("c18.hist", C18.handler) ]
+  [ ("c18.hist", C18.handler),
+    ("c16.rel", C16.handler) ]
 
 partial def loop (h : IO.FS.Stream) (out : IO.FS.Stream) (f : Handler) : IO Unit := do
   let line ← h.getLine
